@@ -116,6 +116,7 @@ def PureState.step (st : PureState) : FOp → PureState
         { st with fam := st.fam ++ [{ m with id := { value := formatUint (st.ctr rep), set := true } }],
                   ctr := fun r => if r = rep then st.ctr rep + 1 else st.ctr r,
                   puts := st.puts ++ [.fresh st.fam.length] }
+  | .unmarshal i p => st.modify i fun _ => (Message.unmarshalText p).1
 
 def PureState.run (st : PureState) (ops : List FOp) : PureState := ops.foldl PureState.step st
 
